@@ -10,7 +10,9 @@ RULE = ("frames: every opcode x mask x fin/rsv bits x payload length at the 125/
         "samples up to 70000 (thorough: all lengths 0..2100, 65000..66100, every 37th up to 70000 through the model; every length "
         "0..70000 through the implementation oracle), random keys, short/long keys and inconsistent payload_length (malformed); "
         "parse: valid encodings, every truncation of short ones, random bytes; streams: all 2- and 3-cut chunkings of short frame "
-        "sequences, random chunkings of long ones, byte-by-byte, plus malformed streams (unmasked, bad opcode, bad utf-8, Close twice); "
+        "sequences, every cut position in the header / extended length / key and around the end of frames of length 126, 127, 300, 65535, "
+        "65536, random chunkings of long ones, byte-by-byte, plus malformed streams (unmasked, bad opcode, bad utf-8, Close twice); the "
+        "oracle checks the final deliveries and, read by read, that exactly the frames complete so far have been delivered; "
         "non-trivial = extended length form or a cut that falls inside a frame")
 ASSUMPTIONS = ["continuation frames (opcode 0) and message fragmentation are not supported by the code and outside the statement",
                "client frames are masked, carry a wire opcode (Text/Binary/Close/Ping/Pong) and Text payloads are valid UTF-8",
@@ -104,7 +106,23 @@ def impl_available(buf):
     if not hasattr(h, "_frameAvailable"):
         return None
     h._buffer._push(buf)
-    return bool(h._frameAvailable())
+    return lib.guarded(lambda: bool(h._frameAvailable()))
+
+
+def impl_feed_prompt(chunks):
+    """number of frames delivered after each read (oracle only)"""
+    from mpgameserver.http_server import WebSocketTemporaryHandler, WebSocketTemporaryRingBuffer
+    ep = Endpt()
+    h = WebSocketTemporaryHandler(("h", 1), {}, {}, WebSocketTemporaryRingBuffer(Req()), ep)
+    out = []
+    for c in chunks:
+        try:
+            h(c)
+        except Exception:      # noqa  (the final-state oracle reports the exception)
+            out.append(-1)
+            break
+        out.append(len(ep.log))
+    return out
 
 
 def utf8_ok(b):
@@ -301,7 +319,8 @@ def run(run):
     run.compare("ws_parse", [b[:24] for b in pcases], impl_p, mod_p)
     av = [impl_available(b) for b in pcases]
     if av and av[0] is not None:
-        run.compare("ws_available", [b[:24] for b in pcases], av, [bool(x) for x in M.call_many("ws_available", [[b] for b in pcases])])
+        run.compare("ws_available", [b[:24] for b in pcases], av,
+                    [lib.ok(bool(x)) for x in M.call_many("ws_available", [[b] for b in pcases])])
     else:
         run.notes.append("WebSocketTemporaryHandler has no _frameAvailable (unrepaired tree): unit ws_available skipped")
 
@@ -337,6 +356,23 @@ def run(run):
             k = r.randrange(0, 12)
             ch = cuts(stream, [r.randrange(0, len(stream) + 1) for _ in range(k)])
         fcases.append((r.choice([0, 0, 0, 1]), ch, fr))
+    # extended length forms: a cut at every position of the header / key and around the end of the frame
+    for n in (126, 127, 300, 65535, 65536):
+        for _ in range(2 if run.thorough() else 1):
+            big = (1, 0, 0, 0, 2, 1, rnd_bytes(r, 4), n, rnd_bytes(r, n))
+            fr = client_frames(r, 1, maxlen=4) + [big] + client_frames(r, 1, maxlen=4)
+            encs = [rfc_encode(*f[:7], f[8]) for f in fr]
+            stream = b"".join(encs)
+            a, b = len(encs[0]), len(encs[0]) + len(encs[1])
+            heads = list(range(a, a + 16))
+            tails = list(range(b - 5, b + 3))
+            for i in heads + tails:
+                fcases.append((0, cuts(stream, [i]), fr))
+            for i in heads:
+                fcases.append((0, cuts(stream, [i, r.choice(tails)]), fr))
+                fcases.append((0, cuts(stream, [i, i + 1]), fr))
+    run.exhaustive.append("streams: every cut position inside the header/extended length/key and around the end of frames "
+                          "of length 126, 127, 300, 65535, 65536")
     # malformed streams
     for _ in range(400 if run.thorough() else 120):
         fr = client_frames(r, r.randrange(1, 5), maxlen=8)
@@ -378,6 +414,23 @@ def run(run):
                  {"frames": [[f[4], len(f[8])] for f in fr], "chunk_sizes": [len(x) for x in ch],
                   "delivered": [[d[0], len(d[1])] for d in res[0]], "exception": res[2],
                   "left_in_buffer": len(res[3])}, "WebSocketTemporaryHandler.__call__")
+            continue
+        # promptness: after each read exactly the frames that are complete so far have been delivered
+        ends, pos = [], 0
+        for f in fr:
+            pos += len(rfc_encode(*f[:7], f[8]))
+            ends.append(pos)
+        got = impl_feed_prompt(ch)
+        fed, wantp = 0, []
+        for x in ch:
+            fed += len(x)
+            wantp.append(sum(1 for e in ends if e <= fed))
+        if got != wantp:
+            nv += 1
+            viol("frame-not-delivered-when-complete", (len(ch) > 1, len(fr) > 1),
+                 {"frames": [[f[4], len(f[8])] for f in fr], "chunk_sizes": [len(x) for x in ch],
+                  "delivered_after_each_read": got, "complete_after_each_read": wantp},
+                 "WebSocketTemporaryHandler.__call__")
     run.count("oracle_stream_violations", nv)
     k = next((i for i, (c, ch, fr) in enumerate(fcases) if fr and len(ch) == 3), 0)
     run.sample({"unit": "ws_feed", "chunks": lib.jsonable(fcases[k][1]), "impl": lib.jsonable(impl_f[k])})
